@@ -27,6 +27,7 @@
 
 #include <cstddef>
 #include <cctype>
+#include <limits>
 #include <map>
 #include <stdint.h>
 #include <string>
@@ -250,6 +251,10 @@ void CmdOptions::optionDistance(Option& opt)
 
   if (!numbers.empty())
     start = numbers[0];
+
+  // START + DIST must be < 2^64
+  if (val > std::numeric_limits<uint64_t>::max() - start)
+    throw primesieve_error("invalid option '" + opt.opt + "=" + opt.val + "': START + DIST >= 2^64");
 
   numbers.push_back(start + val);
 }
